@@ -31,6 +31,19 @@ class SpyError(Exception):
         self.fid, self.tok = fid, tok
 
 
+class FrozenSpyError(SpyError):
+    """an immutable exception (as attrs' frozen=True makes them, RerouteWSGI among them): the interpreter may set the
+    traceback/cause/context slots, nobody may hang new attributes on it"""
+    def __init__(self, fid, tok=None):
+        SpyError.__init__(self, fid, tok)
+        object.__setattr__(self, '_frozen', True)
+
+    def __setattr__(self, name, value):
+        if getattr(self, '_frozen', False) and name not in ('__traceback__', '__cause__', '__context__', '__suppress_context__', '__notes__'):
+            raise AttributeError('frozen exception: cannot set %r' % name)
+        Exception.__setattr__(self, name, value)
+
+
 class Refused(Exception):
     """clastic refused while the harness was still synthesising callables (clastic_decorator)"""
     def __init__(self, error):
@@ -190,6 +203,9 @@ class Runtime(object):
         f = self.fspec[fid]
         role = f['role']
         ev.append(['enter', fid, {p: self.symbolize(p, v, tr) for p, v in args.items()}])
+        for v in args.values():
+            if type(v) is list and not any(v is x for x in tr.setdefault('lists', [])):
+                tr['lists'].append(v)       # poisoned by the harness once the request is over (see di_eval)
         b = self.beh.get(fid, 'pass' if role == 'mw' else ('ctx' if role == 'endpoint' else 'resp'))
 
         def make(kind):
@@ -208,7 +224,7 @@ class Runtime(object):
                     from clastic.errors import Conflict
                     o = Conflict(detail='exc:%s:%s' % (fid, tok))
                 else:
-                    o = SpyError(fid, tok)
+                    o = (FrozenSpyError if zlib.crc32(fid.encode()) % 2 else SpyError)(fid, tok)
             else:
                 o = Marker(['ctx', fid])
             tr['made'][id(o)] = [kind, fid]
@@ -314,6 +330,14 @@ def make_callable(rt, f, role, provides=()):
     if form == 'callable_object':
         sig, _ = signature_src(params, with_self=True)
         exec('class K(object):\n%s    def __call__(%s):\n        return %s\nfn = K()\n' % (falsy, sig, call), ns)
+        if f.get('wrapped'):
+            # a class-based decorator that did functools.update_wrapper(self, func): the object advertises the function it
+            # wraps (__wrapped__, __name__, ...), but what gets called - and what must be analysed - is its own __call__
+            import functools
+
+            def zz_wrapped_function(zz_unrelated, request=None, *zz_args):
+                raise AssertionError('the wrapped function is never called by the framework')
+            functools.update_wrapper(ns['fn'], zz_wrapped_function)
         return ns['fn']
     if form == 'staticmethod':
         sig, _ = signature_src(params)
@@ -391,7 +415,12 @@ class Built(object):
 
 
 def pattern_of(route):
-    return '/r' + ''.join('/<%s>' % b for b in route['bindings'])
+    """route['last_op'] ('?', '*' or '+', optional): the arity operator of the last binding"""
+    bs = list(route['bindings'])
+    ops = [''] * len(bs)
+    if bs and route.get('last_op'):
+        ops[-1] = route['last_op']
+    return '/r' + ''.join('/<%s%s>' % (b, op) for b, op in zip(bs, ops))
 
 
 def level_prefix(level, k):
@@ -413,7 +442,16 @@ def request_path(cfg, values=None, sep='/'):
     """sep='//': a non-canonical spelling of the same path (the route pattern is a leaf: it is executed directly
     in the default slash mode, with the same values)"""
     values = values or {}
-    return full_prefix(cfg, values) + '/r' + ''.join(sep + values.get(b, 'v_' + b) for b in cfg['route']['bindings'])
+    out = full_prefix(cfg, values) + '/r'
+    for b in cfg['route']['bindings']:
+        v = values.get(b, 'v_' + b)
+        if v is None or v == []:
+            continue                    # an absent optional / multi binding (the last one)
+        if isinstance(v, list):
+            out += ''.join('/' + x for x in v)      # single slashes inside a multi binding (C05's known finding is not C02's subject)
+        else:
+            out += sep + v
+    return out
 
 
 def build(cfg, error_handler_factory=None, slash_mode=None):
